@@ -16,7 +16,10 @@ reached only after the lease enumeration was run to exhaustion, and the
 enumerators hand out every slot.  C26.9 / C26.10 adopt the crawler-coverage
 rules of C27 and the lease-enumeration rules of C25; C26.11 requires the
 ShareCrawler hooks the expirer replaces without an upcall to be free of
-traversal bookkeeping."""
+traversal bookkeeping.  C26.12 / C26.13 close the chain from the text of
+[storage]expire.cutoff_date to the number the leases are compared with:
+the keyword receives exactly the value of util.time_format.parse_date, and
+(adopted from C48.5/.6/.8) that value is midnight UTC of the given day."""
 from fractions import Fraction
 
 from sa.h import *
@@ -54,8 +57,15 @@ EXPLANATION = (
     "C25.8/.9) the lease enumerations pair every lease with its own slot and a slot reads as empty only for owner_num 0; "
     "(11) every ShareCrawler method the expirer replaces without an upcall (started_cycle, finished_cycle, "
     "add_initial_state, process_bucket) does no traversal bookkeeping in the base class, directly or through "
-    "self.<m>() calls - a resume marker or cycle counter maintained in a replaced hook is lost for the lease crawler. "
-    "Undecided: clock values, the arithmetic of parse_duration/parse_date (C48), lease record (de)serialisation and "
+    "self.<m>() calls - a resume marker or cycle counter maintained in a replaced hook is lost for the lease crawler; "
+    "(12) every value that can reach StorageServer(expiration_cutoff_date=) / (expiration_override_lease_duration=) - "
+    "followed through all reaching definitions of the locals - is None, the raw text with a None default (C26.5 decides "
+    "that only None gets through) or exactly parse_date(..) / parse_duration(..) (an int(..) around it admitted) of the "
+    "text of its own key, the callee resolving through client.py's imports to allmydata.util.time_format; (13, adopted "
+    "from C48.5/.6/.8) parse_date returns int(iso_utc_time_to_seconds(day + 'T00:00:00')), whose fields feed "
+    "calendar.timegm - midnight UTC of the configured day, not local-time midnight - the date grammar consumes the whole "
+    "value, and a rejected value stops the node. "
+    "Undecided: clock values, the arithmetic of parse_duration (C48.1/.2), lease record (de)serialisation and "
     "the slot offsets of _read_lease_record (C25.4/C25.6), the atomicity of the crawler state file and run-time "
     "exceptions that abort a slice (C27.4/C27.6), the "
     "space-recovered / would_keep_share statistics and histograms, what happens to a share that already has no "
@@ -1853,6 +1863,160 @@ def run(ctx: Context):
                                 name, name, "without an upcall" if not upcalls else "and can return without its upcall",
                                 what, short(wf)))
 
+    # -- 12. the policy values are the parsers' values, unchanged -------------------------------
+    # C26.5 decides which config key and which parser feed each StorageServer(expiration_*=) keyword; it does not say
+    # that the keyword receives the parser's value *itself* (not the value shifted / scaled / combined with something
+    # else), nor which function the name `parse_date` / `parse_duration` stands for in client.py.  Both are needed for
+    # "the crawler's cutoff is midnight UTC of the configured day" (decided on util.time_format.parse_date by C48.5,
+    # adopted below as C26.13) to be a statement about the value LeaseCheckingCrawler compares the leases with.
+    with ctx.rule("C26.12", "R5", "on every path StorageServer(expiration_cutoff_date= / expiration_override_lease_duration=) "
+                  "receives None or exactly the value of util.time_format.parse_date / parse_duration applied to the text of "
+                  "its own [storage]expire.* key", expected=2) as r:
+        cl = idx.func("client:_Client.get_anonymous_storage_server")
+        cs = [c for c in calls_in_func(cl, "StorageServer")]
+        if len(cs) != 1:
+            raise AnchorVanished("get_anonymous_storage_server: StorageServer(...) call")
+        sc = cs[0]
+        ccfg = cl.cfg()
+        rd = C.reaching_defs(ccfg)
+        at = [n for n in ccfg.nodes if any(c is sc for c in node_calls(n))]
+        if len(at) != 1:
+            raise AnchorVanished("get_anonymous_storage_server: the StorageServer(...) call is not one statement")
+        n_steps = [0]
+
+        def origins(node, e, depth=10):
+            """[(node, expr)]: the expressions the value of `e`, evaluated at `node`, is a plain copy of - local names
+            followed through all their reaching definitions, conditional expressions through both arms.  An
+            expression of None stands for a binding that is not a plain assignment (loop target, augmented
+            assignment, parameter)."""
+            n_steps[0] += 1
+            if isinstance(e, ast.IfExp):
+                return origins(node, e.body, depth) + origins(node, e.orelse, depth)
+            if isinstance(e, ast.Name) and depth > 0:
+                ds = rd.get(node.id, {}).get(e.id)
+                if ds:
+                    out = []
+                    for d in sorted(ds, key=lambda x: (isinstance(x, str), x)):
+                        dn = ccfg.nodes[d] if isinstance(d, int) and 0 <= d < len(ccfg.nodes) else None
+                        v = assign_value(dn, e.id) if dn is not None and dn.kind == "stmt" else None
+                        if v is None:
+                            out.append((dn if dn is not None else node, None))
+                        else:
+                            out += origins(dn, v, depth - 1)
+                    return out
+            return [(node, e)]
+
+        for kw, parser, key in (("expiration_cutoff_date", "parse_date", "storage.expire.cutoff_date"),
+                                ("expiration_override_lease_duration", "parse_duration", "storage.expire.override_lease_duration")):
+            v = kwarg(sc, kw)
+            if v is None:
+                raise AnchorVanished("StorageServer(...) in client.py no longer passes %s=" % kw)
+            want_fn = idx.func("util.time_format:" + parser)
+            n_parsed = 0
+            for (on, oe) in origins(at[0], v):
+                what = src(cl, oe) if oe is not None else "a value that is not a plain assignment"
+                where = cl.loc(oe if oe is not None else (on.ast if on is not None and getattr(on, "ast", None) is not None else v))
+                if isinstance(oe, ast.Constant) and oe.value is None:
+                    continue                # policy value absent
+                if _get_config_key(oe) == key and isinstance(arg(oe, 2, "default"), ast.Constant) \
+                        and arg(oe, 2, "default").value is None:
+                    continue                # the raw text, None when the key is absent; C26.5 decides that only None gets through
+                inner = oe
+                # int(x) of an int is x (LeaseCheckingCrawler.__init__ asserts the cutoff is an int)
+                while isinstance(inner, ast.Call) and isinstance(inner.func, ast.Name) and inner.func.id == "int" \
+                        and len(inner.args) == 1 and not inner.keywords and idx.resolve_expr(cl.module, inner.func) is None:
+                    inner = inner.args[0]
+                if not (isinstance(inner, ast.Call) and call_tail(inner) == parser):
+                    r.site(cl, v, "%s <- %s" % (kw, what))
+                    r.violation(cl, where, "StorageServer(%s=) can receive %s: not None and not the value of %s([storage]%s) "
+                                "itself, so the lease crawler's %s is not the configured one" % (
+                                    kw, what, parser, key.split(".", 1)[1],
+                                    "cutoff" if parser == "parse_date" else "lease duration"))
+                    continue
+                n_parsed += 1
+                r.site(cl, inner, "%s <- %s" % (kw, what))
+                target = idx.resolve_expr(cl.module, inner.func)
+                r.require(target is want_fn and parser not in {t for n in ccfg.nodes for t in node_stores(n)}
+                          and parser not in cl.params,
+                          cl, cl.loc(inner), "%s in client.py is %s, not allmydata.util.time_format.%s (whose result is decided by "
+                          "C48)" % (src(cl, inner.func), target.qual if isinstance(target, FuncInfo) else "not resolvable", parser))
+                if len(inner.args) != 1 or inner.keywords:
+                    r.violation(cl, cl.loc(inner), "%s is called as %s" % (parser, src(cl, inner)))
+                    continue
+                for (an, ae) in origins(on, inner.args[0]):
+                    r.require(_get_config_key(ae) == key, cl, cl.loc(inner),
+                              "%s is applied to %s, not to the text of [storage]%s" % (
+                                  parser, src(cl, ae) if ae is not None else "a value that is not a plain assignment",
+                                  key.split(".", 1)[1]))
+            if not n_parsed and not r.violations:
+                raise AnchorVanished("get_anonymous_storage_server: no %s(...) value reaches StorageServer(%s=)" % (parser, kw))
+        r.count(n_steps[0])
+
+    # -- 14. the cutoff does not depend on the node's time zone ---------------------------------
+    # Lease renewal times are time.time() values; the cutoff they are compared with must be the same instant on every
+    # node, whatever its TZ.  C26.13.5 (C48.5) demands the positive form (calendar.timegm of the fields) and answers
+    # with an analysis error when that construct is gone; the edit that removes it is typically the one that puts a
+    # local-time conversion in its place, which is reported here as what it is.
+    with ctx.rule("C26.14", "R8", "no value that depends on the node's local time zone (time.mktime / time.localtime / "
+                  "naive datetime.timestamp() / datetime.fromtimestamp(x) / time.timezone / time.altzone) feeds the value "
+                  "parse_date returns, in parse_date or in the package functions whose result it returns", expected=2) as r:
+        pd = idx.func("util.time_format:parse_date")
+        TZ_MARK = {"tzinfo", "utc", "UTC", "tz"}
+
+        def tz_aware(e):
+            """The expression mentions an explicit time zone (tzinfo= / timezone.utc / a %z format)."""
+            for x in ast.walk(e):
+                if isinstance(x, ast.keyword) and x.arg in TZ_MARK:
+                    return True
+                if isinstance(x, ast.Attribute) and x.attr in TZ_MARK:
+                    return True
+                if isinstance(x, ast.Name) and x.id in TZ_MARK:
+                    return True
+                if isinstance(x, ast.Constant) and isinstance(x.value, str) and "%z" in x.value:
+                    return True
+            return False
+
+        def local_time_uses(f, e):
+            out = []
+            for c in calls_feeding(f, e):
+                t = call_tail(c)
+                if t in ("mktime", "localtime"):
+                    out.append((c, "%s (local time)" % src(f, c.func)))
+                elif t == "fromtimestamp" and len(c.args) + len(c.keywords) < 2:
+                    out.append((c, "%s without a time zone (local time)" % src(f, c.func)))
+                elif t == "timestamp" and isinstance(c.func, ast.Attribute) and not c.args:
+                    recv = c.func.value
+                    full = [recv] + [v for l in leaves(recv) for v in def_exprs(f).get(l, [])]
+                    if not any(tz_aware(x) for x in full):
+                        out.append((c, ".timestamp() of a naive datetime (read as local time)"))
+            for l in depends_on(f, e):
+                if l in ("time.timezone", "time.altzone", "time.daylight", "time.tzname"):
+                    out.append((e, l))
+            return out
+
+        seen_fns, work = set(), [(pd, 0)]
+        while work:
+            f, depth = work.pop()
+            if f.qual in seen_fns:
+                continue
+            seen_fns.add(f.qual)
+            rets = [n for n in f.cfg().find(is_return) if n.ast.value is not None]
+            if not rets:
+                raise AnchorVanished("%s returns nothing" % short(f))
+            r.site(f, rets[0].ast, "%d return(s)" % len(rets))
+            r.count(len(f.cfg().nodes))
+            for n in rets:
+                for (at_, what) in local_time_uses(f, n.ast.value):
+                    r.violation(f, f.loc(at_), "the cutoff %s returns is computed with %s: on a node whose time zone is not UTC "
+                                "[storage]expire.cutoff_date no longer means midnight UTC of that day, so leases renewed "
+                                "within the UTC offset of the boundary are judged wrongly (share deleted although not "
+                                "expired, or kept although expired)" % (short(f), what))
+                if depth < 3:
+                    for c in calls_feeding(f, n.ast.value):
+                        g = idx.resolve_expr(f.module, c.func)
+                        if isinstance(g, FuncInfo):
+                            work.append((g, depth + 1))
+
     # -- 9./10. adopted necessary conditions ----------------------------------------------
     # "such a share is deleted within one crawl cycle" and "only if every lease on it is expired" rest on two things
     # this file does not look at itself: the crawler the expirer inherits reaches every bucket in every cycle (C27:
@@ -1863,3 +2027,12 @@ def run(ctx: Context):
     # _enumerate_leases / read as empty is a lease that is neither examined nor counted as remaining).
     ctx.include("C27", ["C27.1", "C27.2", "C27.3", "C27.5"], "C26.9")
     ctx.include("C25", ["C25.8", "C25.9"], "C26.10")
+    # "expired" in cutoff-date mode means: last renewed before midnight UTC of the configured day.  The lease crawler
+    # compares renewal times (time.time() values, UTC-based) with the number parse_date made of the text, so the
+    # deleted set is the documented one only if that number is midnight *UTC* of exactly that day - a local-time
+    # midnight (strptime().timestamp(), time.mktime) shifts the boundary by the node's UTC offset: shares renewed
+    # inside that window are deleted although not expired, or kept although expired.  C48.5 decides the arithmetic of
+    # parse_date / iso_utc_time_to_seconds (calendar.timegm of the regex fields, nothing added), C48.6 that no other
+    # text than the day is read as a time, C48.8 the path-sensitive plumbing (a rejected value stops the node instead of
+    # being replaced).  (C48, C27 and C25 include no other property: no include cycle.)
+    ctx.include("C48", ["C48.5", "C48.6", "C48.8"], "C26.13")
